@@ -31,6 +31,8 @@ COMPOUND = [
     "$.a[*] | $.b[*] | $.c[*]", "$..a | $..b", "$.* & $..*", "^[0] | $.a", "$.a[*] & ^[0].b[*]", "$[?@.a] | $[?@.b]", "$.a[*] | $.a[*]",
     "$.a[*] & $.a[*] & $.a[*] & $.b[*]", "$.x | $.y | $.z | $.a | $.b",
     "$.a | ^[?@.k == 1]", "^[?@.k == 1] | $.a", "^[?@.a] & $", "$.* & ^[0].*", "^[0].a[*] | $.b[*] | ^[?@.s]", "$[?@.a || @.b] | $[?@.a && @.b]",
+    # the filter context in operands after the first
+    "$.a[?@ > _.v] | $.b[?@ >= _.v]", "$.a[*] & $.b[?@ == _.v]", "$.xs[?@.k == _.v] | $.xs[?@.k != _.v]", "$.a | $.list[?@ == _.v] | $[?_.flag]", "^[?_.flag] | $.a[?@ == _.v]",
 ]
 
 DOCS = [
